@@ -142,8 +142,8 @@ def get_alt_az(utc_time, lon, lat):
 
     ra_, dec = sun_ra_dec(utc_time)
     h__ = _local_hour_angle(utc_time, lon, ra_)
-    alt_az = (np.arcsin(np.sin(lat) * np.sin(dec) +
-                        np.cos(lat) * np.cos(dec) * np.cos(h__)),
+    alt_az = (np.arcsin(np.clip(np.sin(lat) * np.sin(dec) +
+                                np.cos(lat) * np.cos(dec) * np.cos(h__), -1.0, 1.0)),
               np.arctan2(-np.sin(h__), (np.cos(lat) * np.tan(dec) -
                                         np.sin(lat) * np.cos(h__))))
     if not isinstance(lon, float):
@@ -177,7 +177,7 @@ def sun_zenith_angle(utc_time, lon, lat):
     The sun zenith angle returned is in degrees.
     """
     csza = cos_zen(utc_time, lon, lat)
-    sza = np.rad2deg(np.arccos(csza))
+    sza = np.rad2deg(np.arccos(np.clip(csza, -1.0, 1.0)))
     if not isinstance(csza, float):
         sza = sza.astype(csza.dtype)
     return sza
